@@ -44,6 +44,9 @@ CHECKS = {
  "C15": ("exploration",
          "TLC enumerates the bounded domain of Data values (strings over 13 characters incl. quote, backslash, control characters and a multi-byte character; numbers; arrays; maps with such keys; nesting) -- the oracle of the round trip is the identity, TLC contributes the exhaustive domain; every value goes through toJSON/fromJSON and Event->Data->Event. Robustness is a sanitizer side condition: all structural strings up to a length bound plus prefixes and byte mutations of seed texts are parsed by an ASan+UBSan build of Data.cpp+jsmn.c in forked children.",
          "5 C15", "TLC-enumerated domain replayed through the implementation; ASan/UBSan side condition for the parser"),
+ "C16": ("exploration",
+         "TLC enumerates values (empty / number-like / code-like strings, integers, reals, booleans, arrays, maps with non-numeric keys, nested) x ways in (assign, init, event payload); the specification of the trip is the identity; every vector goes through a live lua-datamodel interpreter and is read back with evalAsData; assignments to the five system variables must raise error.execution and leave them unchanged.",
+         "5 C16", "TLC-enumerated domain (MC_LuaValue) replayed through the implementation"),
  "C17": ("exploration",
          "TLC enumerates expression ASTs up to depth 2 with the value the TLA+ evaluator PromelaExpr!Eval defines (C integer semantics) and renders each with minimal and full parentheses; every vector is evaluated by evalAsData/evalAsBool of a live promela-datamodel interpreter in forked children (a crash is an outcome).",
          "5 C17", "TLC-generated oracle table (MC_PromelaExpr) replayed through the implementation"),
